@@ -25,9 +25,12 @@ Everything that evaluates nothing, or that a helper does not understand, is a fa
 import json, os, re, subprocess, zlib
 from concurrent.futures import ThreadPoolExecutor
 import vlib
+from checks import mempool_units
 
 LEVEL = "proof"
 MODULE = "Sqfs.Props.C19"
+MODULE_MEMPOOL = "Sqfs.Props.MemPool"          # the pool allocator under rbtree.c in /repo's default configuration
+REQUIRED_MEMPOOL = mempool_units.REQUIRED_MEMPOOL
 REQUIRED = ["Sqfs.C19." + t for t in (
     "desc_wellformed", "copy_wellformed", "copy_wellformed_all", "copy_balanced", "copy_fail_safe", "release_safe", "release_safe_either_order",
     "no_leak", "copy_then_release_restores", "refcount_invariant_reading", "refcount_exact", "exH_balanced", "exHX_balanced", "copy_equiv", "copy_same_buffer_sizes", "copy_independent", "copy_buffers_disjoint", "constructed_balanced", "grab_balanced",
@@ -1532,6 +1535,13 @@ def run(ctx):
         ctx.cov["leanchecker"] = "ok" if lc_ok else lc_out[-300:]
         if not lc_ok:
             ctx.violation("proof:C19:leanchecker", "leanchecker rejects the compiled proofs of Sqfs.Props.C19: " + lc_out[-600:], {"leanchecker": lc_out}, found_input=False)
+    # lib/util/src/mempool.c (default configuration): proofs over Sqfs/Model/MemPool.lean, tied by tools/checks/mempool_units.py
+    mok, mproblems = vlib.proof_gate(ctx, MODULE_MEMPOOL, REQUIRED_MEMPOOL)
+    if not mok:
+        ctx.violation("proof:C19:mempool", "proof obligations about mempool.c no longer check: " + " | ".join(mproblems)[:1500],
+                      {"broken": mproblems, "theorems_file": "lean/Sqfs/Props/MemPool.lean"}, found_input=False)
+    mempool_cov = mempool_units.run_units(ctx)
+    ctx.log("mempool.c: %d scenarios, %d answer lines compared with the model" % (mempool_cov["scenarios"], mempool_cov["answer_lines"]))
     harness, gen = build(ctx)
     hp = build_pool(ctx)
     ctx.cov["instrumentation_selftest"] = selftest(ctx, [("malloc/ASan", harness, True), ("pool/ASan", hp["asan"], True), ("pool/uninstrumented", hp["plain"], False)])
@@ -1670,7 +1680,8 @@ def run(ctx):
     if floor_problems:
         raise vlib.CheckFailure("; ".join(floor_problems)[:1500])
     ctx.cov.update({
-        "evaluations": sum(len(s.lines) for s in allsc) + sum(len(s.lines) for s in tscs) + sum(len(u.lines) for u in us) + pool_cov["answer_lines"],
+        "evaluations": sum(len(s.lines) for s in allsc) + sum(len(s.lines) for s in tscs) + sum(len(u.lines) for u in us) + pool_cov["answer_lines"] + mempool_cov["answer_lines"],
+        "mempool_c": mempool_cov,
         "unit_scenarios": len(us), "units": ustat, "default_configuration_pool_allocator": pool_cov, "directory_copies_asked_for_high_references": hi,
         "distinct_nontrivial": nontrivial,
         "rule": "seeded scenarios per kind (5 compressors x {compress with random level/window/flags, uncompress}, id/fragment table, read-only file, "
@@ -1705,6 +1716,8 @@ def run(ctx):
 def replay(ctx, path):
     import random
     body = json.loads(open(path).read())
+    if str(body.get("key", "")).startswith("mempool:") or (isinstance(body.get("replay"), dict) and body["replay"].get("mempool")):
+        return mempool_units.replay(ctx, body)
     if "replay" not in body and "lines" in body:          # a corpus entry (corpus/C19/*.json) is replayable as it is
         body = {"seed": 0, "replay": {"entry": body, "config": body.get("config", "malloc")}}
     rp = body.get("replay", {})
